@@ -1108,8 +1108,10 @@ RecMsgsOn(R, Q) ==
   ELSE LET need == {s \in DOMAIN R.st : R.st[s].status = "RUNNING"
                                          \/ (R.st[s].status = "NOT_STARTED" /\ (R.st[s].started \/ CanStartOn(R, s)))}
            ex   == SelectSeq(P.stages, LAMBDA s : s \in DOMAIN R.st)
-       IN IF need = {}
-          THEN (IF R.wf.status = "NOT_STARTED" THEN <<StartWorkflowM>> ELSE <<>>)
+       IN IF R.wf.status = "NOT_STARTED"      \* nothing to resume: StartWorkflow starts it (fix: property=C01, known_findings.json)
+          THEN <<StartWorkflowM>>
+          ELSE IF need = {}
+          THEN <<>>
           ELSE Flatten([i \in DOMAIN ex |-> RecForOn(R, Q, ex[i])])
 PendingFor(t) == PendingIn(q, t)
 HasStarted(s) == st[s].started
